@@ -449,7 +449,7 @@ def oracle_C16(hi, ops, obs):
 def oracle_C18(hi, ops, obs):
     out = []
     for b in obs:
-        if b['halt'] or 'qry' not in b: continue
+        if b['halt'] or 'qry' not in b or b.get('synthetic'): continue
         if b['qry'].get(-1) != 'err':
             out.append(Viol(hi, b['h'], 'malformed-address-answered', str(b['qry'].get(-1))))
         for op in range(10):
@@ -475,9 +475,16 @@ def oracle_C01(hi, ops, obs):
         if j == 0 or (b['halt'] and not b['txr']): continue
         ob = ops['blocks'][j-1]
         prev = obs[j-1]
+        pending_before = set(int(x[0]) for x in (prev.get('pend') or []))
+        admitted = set()
         for i, tx in enumerate(ob['txs']):
             if i >= len(b['txr']): break
             res = b['txr'][i]
+            if tx['signer'] == -1 and res == 'ok':
+                for m in tx['msgs']:
+                    for lf in m.flat():
+                        if lf.kind == 'SETPOWER' and int(lf.args[0]) in pending_before:
+                            admitted.add(int(lf.args[0]))
             if tx['signer'] == -1 or res == 'sdk:32': continue
             leaves = [lf for m in tx['msgs'] for lf in m.flat()]
             gated = [lf for lf in leaves if lf.kind in ('SETPOWER', 'RMPENDING', 'PARAMS')]
@@ -489,6 +496,8 @@ def oracle_C01(hi, ops, obs):
                 if lf.kind == 'REMOVE' and res == 'ok':
                     t = int(lf.args[0])
                     pv = prev['vals'].get(t) if prev['vals'] else None
+                    if pv is None and tx['signer'] == t and t in admitted:
+                        continue   # admitted earlier in this block: PoA stores the record as Bonded at once
                     if tx['signer'] != t or pv is None or pv['status'] != 3:
                         out.append(Viol(hi, b['h'], 'remove-by-stranger-accepted', f"tx {i} signer {tx['signer']} target {t}"))
             if len(leaves) == 1 and leaves[0].kind == 'REMOVE' and tx['signer'] != int(leaves[0].args[0]) and int(leaves[0].args[0]) >= 0 and res != 'poa:3':
@@ -555,11 +564,44 @@ def oracle_C09(hi, ops, obs):
                 out.append(Viol(hi, b['h'], 'edit-without-rate-panics', f"tx {i} {tx['msgs']}"))
     return out
 
+def attach_genesis(ops, obs):
+    """the genesis observation (H 0) carries only the update list and CometBFT's set: nothing is committed yet.  The
+    state the first block starts from is fully determined by the genesis description; fill it in so that the oracles can
+    judge block 1 like every other block."""
+    if not obs or obs[0]['h'] != 0 or obs[0]['vals'] or obs[0]['halt']:
+        return
+    g = ops['genesis']   # maxVals unbondNs window minSigned jailNs slashDownE18 minCommE18 n
+    b = obs[0]
+    for (op, key, tok) in ops['gvals']:
+        b['vals'][op] = dict(op=op, key=key, status=3, jailed=False, tokens=tok, shares=tok * E18, self=tok * E18,
+                             last=tok // 1_000_000, ubt=-1, ubh=0)
+    tot = sum(tok for (_, _, tok) in ops['gvals'])
+    b.setdefault('pool', (tot, 0, tot))
+    b.setdefault('pend', [])
+    b.setdefault('par', [str(g[1]), str(g[0]), '7', '10000', '0', str(g[6])])
+    b.setdefault('updc', [])
+    q = {-1: 'err'}
+    for op in range(10):
+        q[op] = 'err'
+    for (op, key, tok) in ops['gvals']:
+        q[op] = str(tok // 1_000_000)
+    b.setdefault('qry', q)
+    b['synthetic'] = True
+
+def _with_genesis(f):
+    def g(hi, ops, obs):
+        attach_genesis(ops, obs)
+        return f(hi, ops, obs)
+    g.__doc__ = f.__doc__; g.__name__ = f.__name__
+    return g
+
 ORACLES = {
     'C07': oracle_C07, 'C08': oracle_C08, 'C09': oracle_C09,
     'C01': oracle_C01, 'C02': oracle_C02, 'C03': oracle_C03, 'C04': oracle_C04, 'C05': oracle_C05,
     'C10': oracle_C10, 'C11': oracle_C11, 'C13': oracle_C13, 'C14': oracle_C14, 'C16': oracle_C16, 'C18': oracle_C18,
 }
+
+ORACLES = {k: _with_genesis(f) for k, f in ORACLES.items()}
 
 def history_trigs(obs, upto_height=None):
     """set of triggers fired (model stream) up to and including a height"""
